@@ -129,6 +129,7 @@ def run_c02(res, tier):
     passes.run_pass_kill(res, ast)
     passes.run_live_outer(res, ast)
     passes.run_gvn_invalidate(res, ast)
+    passes.run_use_registers(res, ast)
     import iolim
     iolim.run_io_map(res, ast)       # ',' stores the next byte or 0 at end of input: part of C02's statement
     if tier == "thorough":
@@ -191,6 +192,7 @@ def run_c11(res, tier):
     passes.run_pass_kill(res, ast)
     passes.run_live_outer(res, ast)
     passes.run_gvn_invalidate(res, ast)
+    passes.run_use_registers(res, ast)
     res.rule("LAYOUT-PAIR", "the interpreter context is allocated and freed with the identical layout expression, sized for "
              "max(temps, 2) cells (the two register spill slots are always present)", floor=1, what="layout pairs")
     bcops.run_layout_pair(res, ast, "LAYOUT-PAIR")
